@@ -36,6 +36,14 @@ var ctxAliasFields = map[string]bool{"buffer": true, "data": true, "value": true
 func (p *Prog) varKey(v ssa.Value) interface{} {
 	for i := 0; i < 8; i++ {
 		v = unwrap(v)
+		// the parameter of a single-site plain helper is the argument passed there
+		if prm, isP := v.(*ssa.Parameter); isP {
+			if c := p.canon(prm); c != ssa.Value(prm) {
+				v = c
+				continue
+			}
+			break
+		}
 		u, ok := v.(*ssa.UnOp)
 		if !ok || u.Op != token.MUL {
 			break
@@ -349,7 +357,7 @@ func ComputeReleases(p *Prog) *Releases {
 func (r *Releases) sitesIn(fn *ssa.Function) []releaseSite {
 	p := r.p
 	var out []releaseSite
-	eachInstr(fn, func(in ssa.Instruction) {
+	eachInstrLocal(fn, func(in ssa.Instruction) {
 		if rs, ok := p.directRelease(in); ok {
 			out = append(out, rs)
 			return
@@ -492,7 +500,7 @@ func (p *Prog) readsAliasFields(fn *ssa.Function, i int, depth int) bool {
 	key := p.varKey(fn.Params[i])
 	// parameter may be spilled
 	keys := []interface{}{key}
-	eachInstr(fn, func(in ssa.Instruction) {
+	eachInstrLocal(fn, func(in ssa.Instruction) {
 		if s, ok := in.(*ssa.Store); ok && s.Val == ssa.Value(fn.Params[i]) {
 			if cell := p.localCell(s.Addr); cell != nil {
 				keys = append(keys, cell)
@@ -501,7 +509,7 @@ func (p *Prog) readsAliasFields(fn *ssa.Function, i int, depth int) bool {
 	})
 	res := false
 	for _, f := range withClosures(fn) {
-		eachInstr(f, func(in ssa.Instruction) {
+		eachInstrLocal(f, func(in ssa.Instruction) {
 			if res {
 				return
 			}
@@ -557,7 +565,7 @@ func (p *Prog) readsAliasFields(fn *ssa.Function, i int, depth int) bool {
 // variable key and are handed to another goroutine/queue (go, Schedule, stored).
 func (p *Prog) escapingClosures(fn *ssa.Function, key interface{}) []*ssa.MakeClosure {
 	var out []*ssa.MakeClosure
-	eachInstr(fn, func(in ssa.Instruction) {
+	eachInstrLocal(fn, func(in ssa.Instruction) {
 		mc, ok := in.(*ssa.MakeClosure)
 		if !ok {
 			return
@@ -597,7 +605,7 @@ func (p *Prog) closureBadUse(mc *ssa.MakeClosure, rs releaseSite, key interface{
 	fn := mc.Fn.(*ssa.Function)
 	bad := false
 	for _, f := range withClosures(fn) {
-		eachInstr(f, func(in ssa.Instruction) {
+		eachInstrLocal(f, func(in ssa.Instruction) {
 			if _, ok := p.badUseAfter(in, rs, key); ok {
 				bad = true
 			}
@@ -611,7 +619,7 @@ func (p *Prog) closureTouches(mc *ssa.MakeClosure, key interface{}) bool {
 	fn := mc.Fn.(*ssa.Function)
 	touch := false
 	for _, f := range withClosures(fn) {
-		eachInstr(f, func(in ssa.Instruction) {
+		eachInstrLocal(f, func(in ssa.Instruction) {
 			if _, ok := in.(*ssa.DebugRef); ok {
 				return
 			}
